@@ -165,6 +165,15 @@ CHECKS = {
              "channel) are split and every piece located (count, channels, integrations, frequencies, split_fil files, distribution "
              "helpers); arrays whose values encode (y, x) are tiled and compared with the model's rectangles for all shifts and trim flags.",
         design="3/C19", technique="Coq proof (nested-loop invariants with fuel, nat div/mod) + value-encoded file/array correspondence"),
+    "C03": dict(
+        text="PARTIAL: blimpy 2.1.4 / h5py / astropy are modelled environment. Proved for setigen's side of the contract: the header written "
+             "for a frame reads back to the same geometry (exact MHz<->Hz arithmetic, orientation = sign of foff); file-order flip is an "
+             "involution; an independent reader applying fch1 + j*foff sees file column j at the sky frequency of the frame's memory column "
+             "(j or F-1-j); after any history of get_waterfall / copy / slice / dedrift / save the writer is handed the frame's current shape "
+             "(the refresh-only-when-absent rule is refuted in the model); the helper axes have exactly nchans / n_ints entries and equal the "
+             "file axis (np.arange with a float step is refuted on binary64). Real files in both formats after random histories are read back "
+             "by setigen, blimpy and the helpers and compared with the frame and with the shape machine.",
+        design="3/C03", technique="Coq proof (header algebra over Q, shape state machine over histories, PrimFloat refutation) + real-file correspondence"),
 }
 
 PENDING_REASON = "check not built yet in this session (planned in DESIGN.md section 3); no claim is made for it in this commit"
